@@ -25,58 +25,41 @@ TITLE = "Evaluation is lazy: demand-driven consumption and bounded buffering"
 LEAN_MODULES = ["LenaModel.Props.C02"]
 LEAN_SOURCES = ["LenaModel/Model/C02.lean", "LenaModel/Lemmas/C02.lean", "LenaModel/Lemmas/C02Neg.lean",
                 "LenaModel/Lemmas/C02Split.lean", "LenaModel/Lemmas/C02Spec.lean", "LenaModel/Lemmas/C02Sim.lean",
+                "LenaModel/Lemmas/C02Min.lean",
                 "LenaModel/Props/C02.lean"]
 DRIVER = "drivers/C02.lean"
 THEOREMS = [
     # the property's main sentences
-    "Lena.C02.build_is_silent",
     "Lena.C02.pipeline_lazy",
     "Lena.C02.compose_pulls",
     "Lena.C02.stage_produces",
     "Lena.C02.seqFuelOK_exists",
     "Lena.C02.take_produces",
-    "Lena.C02.take_feeds",
     "Lena.C02.lazy_refines_list",
-    "Lena.C02.stage_refines_list",
     "Lena.C02.pipeline_values",
-    "Lena.C02.slice_after_infinite_terminates",
-    # infinite inputs and prefix determinacy, for every pipeline (simulation argument, Lemmas/C02Sim.lean)
+    # infinite inputs and prefix determinacy (sufficiency), for every pipeline
     "Lena.C02.pipeline_lazy_infinite",
     "Lena.C02.pipeline_prefix_determined",
-    "Lena.C02.source_pipeSim",
-    "Lena.C02.prefix_pipeSim",
-    "Lena.C02.seq_pipeSim",
-    "Lena.C02.stage_pipeSim",
-    "Lena.C02.take_sim",
+    "Lena.C02.slice_after_infinite_terminates",
     "Lena.C02.split_none_never_returns",
-    # Split.__init__: the effective bufsize (only a Cache in a sequence-type branch gives up a finite bufsize)
-    "Lena.C02.effBufsize_no_cache",
-    "Lena.C02.effBufsize_cache",
-    "Lena.C02.containsCache_split",
-    # the hypotheses in executable form (evaluated by the driver on every case)
-    "Lena.C02.Stage.wfb_iff",
-    "Lena.C02.seqFuelOKb_iff",
+    # "shortest": necessity
+    "Lena.C02.exact_pipeline_minimal",
+    "Lena.C02.exact_stamps",
+    "Lena.C02.count_lookahead_needed",
+    "Lena.C02.lag_needed",
     # what the stage functions say about pulls
-    "Lena.C02.ofList_need",
-    "Lena.C02.map_pulls",
     "Lena.C02.filter_pulls",
     "Lena.C02.filter_pulls_source",
     "Lena.C02.islice_pulls",
-    "Lena.C02.islice_end",
     "Lena.C02.count_lookahead",
     "Lena.C02.negslice_lag",
-    "Lena.C02.negSpec_fst",
-    "Lena.C02.split_block_bound",
-    "Lena.C02.splitSpecGo_block",
+    "Lena.C02.split_block_exact",
     # bounded buffering
     "Lena.C02.split_buffer_bound",
     "Lena.C02.split_retention_bound",
-    "Lena.C02.count_held_bound",
     "Lena.C02.negslice_held_bound",
+    "Lena.C02.cap_sound",
     # the machines realise the stage functions
-    "Lena.C02.listSrc_produces",
-    "Lena.C02.fnSrc_feeds",
-    "Lena.C02.map_feeds",
     "Lena.C02.filter_produces",
     "Lena.C02.runIf_produces",
     "Lena.C02.islice_feeds",
@@ -84,6 +67,34 @@ THEOREMS = [
     "Lena.C02.count_produces",
     "Lena.C02.neg_produces",
     "Lena.C02.split_produces",
+    # Split.__init__: only a Cache in a sequence-type branch gives up a finite bufsize
+    "Lena.C02.effBufsize_no_cache",
+    "Lena.C02.effBufsize_cache",
+]
+# true by definition / model-internal glue / encoding lemmas: audited, not counted as obligations of the property
+AUX_THEOREMS = [
+    "Lena.C02.build_is_silent",          # Stage.run builds a record: `rfl` per stage; the sentence is pipeline_lazy at k = 0
+    "Lena.C02.take_feeds",
+    "Lena.C02.stage_refines_list",
+    "Lena.C02.source_pipeSim",
+    "Lena.C02.prefix_pipeSim",
+    "Lena.C02.seq_pipeSim",
+    "Lena.C02.stage_pipeSim",
+    "Lena.C02.take_sim",
+    "Lena.C02.Stage.wfb_iff",
+    "Lena.C02.seqFuelOKb_iff",
+    "Lena.C02.containsCache_split",
+    "Lena.C02.ofList_need",
+    "Lena.C02.map_pulls",
+    "Lena.C02.islice_end",
+    "Lena.C02.negSpec_fst",
+    "Lena.C02.split_block_bound",
+    "Lena.C02.splitSpecGo_block",
+    "Lena.C02.split_end_is_input_end",
+    "Lena.C02.count_held_bound",
+    "Lena.C02.listSrc_produces",
+    "Lena.C02.fnSrc_feeds",
+    "Lena.C02.map_feeds",
 ]
 CASE_TIMEOUT = 20
 
@@ -523,6 +534,8 @@ def model_requests(case):
 
 
 def compare(case, res, replies):
+    if not isinstance(res, dict) or "end" not in res:
+        return None             # the watchdog fired: reported by the machinery, nothing to compare
     m = replies[0]
     if "err" in m:
         return f"model driver error: {m['err']}"
@@ -1333,10 +1346,14 @@ def search_cases(ctx):
 
 
 def nontrivial(case, res):
+    if "end" not in res:
+        return False
     return len(case["stages"]) >= 1 and len(res.get("r", [])) >= 1
 
 
 def classify(case, res):
+    if "end" not in res:
+        return ["timeout"]
     labels = ["len=%d" % len(case["stages"]), "input=" + ("infinite" if case["n"] is None else "finite"),
               "end=" + res.get("end", "?"), "via=" + case.get("via", "sequence")]
     if case["n"] is not None and res.get("end") == "exhausted":
@@ -1404,26 +1421,57 @@ RULE = ("quick and thorough: fixed cases (documented examples; negative Slice ov
 TRUSTED = [
     "Lean 4.33.0 kernel; axioms limited to propext, Classical.choice, Quot.sound (audited by #print axioms on every run)",
     "hand transcription of the run methods (Run._call_run, Filter.run, RunIf.run, Slice.run/itertools.islice, "
-    "Slice._run_negative_islice, Count.run, Split.run, Sequence.run) into LenaModel/Model/C02.lean as generators with "
-    "explicit state, validated by this correspondence check (event traces of the real code equal the model's)",
+    "Slice._run_negative_islice, Count.run, Split.run and the bufsize rule of Split.__init__, Sequence.run, "
+    "Source.__call__) into LenaModel/Model/C02.lean as generators with explicit state, validated by this "
+    "correspondence check (event traces of the real code equal the model's, for the long run, for up to three "
+    "consumer stop points per case and for a second run of the same pipeline object)",
+    "the list semantics of inner sequences (Model/C02.lean: iRun/iRunEl, total) and of the harness's branch elements "
+    "(fcOps, frOps, srcOps, fillChain), which no theorem characterises further: validated by the correspondence only",
+    "the JSON decoders of drivers/C02.lean (partial defs: they only parse descriptors into model terms) and the "
+    "encoders of harness/props/c02.py",
     "CPython's generator protocol (a finished generator keeps raising StopIteration without running code), "
-    "itertools.islice (CPython 3.12 islice_next) and collections.deque as transcribed",
-    "JSON line protocol encoders (harness/props/c02.py, drivers/C02.lean)",
+    "itertools.islice (CPython 3.12 islice_next) and collections.deque as transcribed; CPython reference counting as "
+    "the meaning of 'alive' in the weak-reference oracle",
 ]
 ASSUMPTIONS = [
-    "inside a block of Split and inside RunIf the model evaluates seq.run(...) at once; generated inner sequences and "
-    "branches never have a Slice after a Count-bearing element (there the lazily evaluated real Count would see fewer "
-    "values than the eager model: observed, see DESIGN notes) - pulls from the input are not affected",
-    "the input is a generator (sticky end); only pulls from the instrumented input and values handed to the consumer "
-    "are observed, so work done lazily inside Split between two block reads is modelled as done at once",
+    "the input is a generator or generator-like iterator (sticky end); only pulls from the instrumented input and "
+    "values handed to the consumer are observed: 'does no work' is checked as 'pulls nothing', calls of user "
+    "callables and element state are not observed",
+    "inside a block of Split and inside RunIf the inner sequence is modelled by its list semantics, evaluated at once: "
+    "an edit that makes the real inner evaluation eager (list(seq.run(buf))) changes no pull from the input and is "
+    "accepted; generated inner sequences never have a Slice after a Count-bearing element (there the lazily "
+    "evaluated real Count would see fewer values than the eager model)",
+    "a Cache is modelled without a cache file (the flow passes through); a nested Split inside a branch has stateless "
+    "sequence-type branches only and is modelled by its list semantics",
     "values are observed through their integer datum and integer-valued top-level context entries; Print, Context, "
-    "UpdateContext, MakeFilename are the identity on that projection",
-    "object lifetime (weak references) is checked on the real code only; it is not part of the Lean model",
+    "UpdateContext, MakeFilename, Cache are the identity on that projection",
+    "object lifetime (weak references) is checked on the real code only; the model proves the sizes of the buffers "
+    "(Stage.cap = the harness's table, compared on every case; cap_sound): |index| for a negative Slice, 1 for Count, "
+    "3*bufsize for Split - the blocks bound to orig_buf and to buf (the same list while a sequence is active, so "
+    "2*bufsize then) and the block being read; the statement's 'bufsize' is the unprocessed part (split_buffer_bound). "
+    "The oracle allows cap + 3..5 for frame locals (measured excess <= 4 on 120 000 pipelines); deep copies of a "
+    "block made for non-last branches (copy_buf) are not tracked",
+    "copy_buf=False is generated only for pipelines without a Count (otherwise context dictionaries shared between "
+    "branches make counters visible elsewhere: C04's subject)",
+    "judgements: (1) Split.run reports its end only at the end of its input, also when every branch has stopped - over "
+    "an infinite input a consumer asking for more results than exist never gets StopIteration (the statement bounds "
+    "pulls when the k-th result is taken); (2) Slice(start, stop) with start >= stop >= 0 pulls start values "
+    "(itertools.islice); both are transcribed and accepted, see Props/C02.lean",
+    "fill/request branches use the harness's BlockSum element (fill adds, request yields and clears); the FillRequest "
+    "adapter itself is C16's subject; RunIf as a fill-into element (FillInto._run_fill_into) is not generated",
+    "re-use: a second run of one pipeline object is generated for pipelines of stateless elements only (no Count, no "
+    "fill/compute or fill/request branch, no Cache)",
 ]
-LEVEL_TEXT = ("Lean 4 theorems about pull-based generator models of the streaming elements, for all pipelines, inputs and "
-              "consumer stop points (no bound), tied to /repo by an event-trace correspondence check and a direct "
-              "minimal-prefix / liveness oracle on the real code.")
+LEVEL_TEXT = ("Lean 4 theorems about pull-based generator models of the streaming elements, for all pipelines, all finite "
+              "and infinite inputs and all consumer stop points (no bound): the consumer's trace and pull count equal a "
+              "stamped-flow specification composed per stage (pipeline_lazy, pipeline_lazy_infinite), the pulled prefix "
+              "determines the results (pipeline_prefix_determined) and for exact elements no shorter one does "
+              "(exact_pipeline_minimal); buffer sizes of negative Slice, Count and Split hold in every reachable state. "
+              "Tied to /repo by an event-trace correspondence check and by an oracle on the real code (reference pull "
+              "bounds, an extensional cut-input probe, stop points, re-use, weak-reference liveness).")
 LEVEL_NOTE = ("Trusted: Lean kernel (+ propext, Classical.choice, Quot.sound), the hand transcription validated by the "
-              "correspondence run, CPython generator/islice/deque semantics as transcribed, the JSON protocol.")
+              "correspondence run, the list semantics of inner sequences and harness branch elements, CPython "
+              "generator/islice/deque/refcount semantics, the JSON protocol. Inner laziness (inside a Split block or a "
+              "RunIf) and calls of user callables are not observed; two behaviours are recorded as judgements.")
 TECHNIQUE = "Lean 4 proof over hand-written generator model + event-trace correspondence check"
 DESIGN_REF = "DESIGN.md section 3, C02"
